@@ -117,15 +117,16 @@ type caseSpec struct {
 	m     methSpec
 	s     setSpec
 	ft    fault
+	gft   fault // gradient fault: kind faultFirst writes val into component 0 of the first gradient
 	obj   *objective
 	seed  uint64
 	reuse bool
 }
 
 func (cs *caseSpec) describe() string {
-	return fmt.Sprintf("Minimize group=%s method=%s ls=%s/%d step=%d store=%d pop=%d rows=%d simplex=%v gradStop=%d obj=%s dim=%d fault=%s k=%d limF=%d limG=%d limH=%d limMaj=%d runtime=%v gradThr=%v conv=%d/%d init=%d conc=%d rec=%s cb=%d/%d noValve=%v yields=%v reuse=%v seed=%d",
+	return fmt.Sprintf("Minimize group=%s method=%s ls=%s/%d step=%d store=%d pop=%d rows=%d simplex=%v gradStop=%d obj=%s dim=%d fault=%s k=%d gfault=%s limF=%d limG=%d limH=%d limMaj=%d runtime=%v gradThr=%v conv=%d/%d init=%d conc=%d rec=%s cb=%d/%d noValve=%v yields=%v reuse=%v seed=%d",
 		cs.group, cs.m.name(), cs.m.lsName(), cs.m.lsParam, cs.m.stepSizer, cs.m.store, cs.m.pop, cs.m.rows, cs.m.simplex, cs.m.gradStop,
-		cs.obj.name, cs.obj.dim, cs.ft.name(), cs.ft.k, cs.s.limF, cs.s.limG, cs.s.limH, cs.s.limMaj, cs.s.runtime, cs.s.gradThr, cs.s.conv, cs.s.convK,
+		cs.obj.name, cs.obj.dim, cs.ft.name(), cs.ft.k, cs.gft.name(), cs.s.limF, cs.s.limG, cs.s.limH, cs.s.limMaj, cs.s.runtime, cs.s.gradThr, cs.s.conv, cs.s.convK,
 		cs.s.init, cs.s.concurrent, recDesc(cs.s), cs.s.cbK, cs.s.cbKind, cs.s.noValve, cs.s.yields, cs.reuse, cs.seed)
 }
 
